@@ -331,6 +331,29 @@ pub fn const_len(id: usize, v: u64) -> usize {
     with_const!(id, c, c.len(v))
 }
 
+/// Read / write through `ConstCode<id>` (optionally wrapped in the statistics wrapper).
+pub fn const_read<E: Endianness, BR: CodesRead<E>>(id: usize, r: &mut BR, stats: bool, via_static: bool) -> Result<u64, BR::Error> {
+    with_const!(id, c, {
+        match (stats, via_static) {
+            (false, false) => DynamicCodeRead::read(&c, r),
+            (false, true) => StaticCodeRead::<E, BR>::read(&c, r),
+            (true, false) => DynamicCodeRead::read(&CodesStatsWrapper::<_>::new(c), r),
+            (true, true) => StaticCodeRead::<E, BR>::read(&CodesStatsWrapper::<_>::new(c), r),
+        }
+    })
+}
+
+pub fn const_write<E: Endianness, BW: CodesWrite<E>>(id: usize, w: &mut BW, v: u64, stats: bool, via_static: bool) -> Result<usize, BW::Error> {
+    with_const!(id, c, {
+        match (stats, via_static) {
+            (false, false) => DynamicCodeWrite::write(&c, w, v),
+            (false, true) => StaticCodeWrite::<E, BW>::write(&c, w, v),
+            (true, false) => DynamicCodeWrite::write(&CodesStatsWrapper::<_>::new(c), w, v),
+            (true, true) => StaticCodeWrite::<E, BW>::write(&CodesStatsWrapper::<_>::new(c), w, v),
+        }
+    })
+}
+
 // ---------------------------------------------------------------------------------------------
 // RBox
 // ---------------------------------------------------------------------------------------------
